@@ -97,6 +97,18 @@ inductive SV where
   | s (v : String)
   deriving DecidableEq, Repr, Inhabited
 
+/-- the value a variable of kind k holds after `v` is assigned to it: payload truncated to the kind
+    (what the typed store `*(*T)(unsafe.Pointer(..)) = v` / `reflect.Value.SetInt` etc. keep); a value
+    of the wrong shape (never produced by the harness) becomes the zero value -/
+def canon (k : K) (v : SV) : SV :=
+  match k, v with
+  | .c128, .n2 a b => .n2 (a % 18446744073709551616) (b % 18446744073709551616)
+  | .c128, _ => .n2 0 0
+  | .str, .s t => .s t
+  | .str, _ => .s ""
+  | k, .n a => .n (a % k.modulus)
+  | _, _ => .n 0
+
 def zeroOf : K → SV
   | .c128 => .n2 0 0
   | .str => .s ""
@@ -282,12 +294,18 @@ def growCap (cap min delta : Nat) : Nat :=
   let c := if c < min then min else c
   if c - cap < delta then cap + delta else c
 
-def growArr (a : Array Nat) (n : Nat) : Array Nat := a ++ Array.replicate (n - a.size) 0
+/-- make([]uint64, min, capacity); copy(binds, env.Ints): the first `len` words are copied, the rest is zero -/
+def growInts (a : Array Nat) (len cap : Nat) : Array Nat :=
+  Array.ofFn (n := cap) (fun j => if j.val < len then a.getD j.val 0 else 0)
+
+/-- env.Vals resliced / reallocated to length n: old elements kept, new ones are zero Values -/
+def growVals (a : Array (Option Nat)) (n : Nat) : Array (Option Nat) :=
+  Array.ofFn (n := n) (fun j => a.getD j.val none)
 
 /-- the `env.Vals` half of prepareEnv -/
 def prepareVals (c : Comp) (e : Env) : Env :=
   let cap := if e.valsCap < c.bindNum then growCap e.valsCap c.bindNum 16 else e.valsCap
-  let vals := if e.vals.size < c.bindNum then e.vals ++ Array.replicate (c.bindNum - e.vals.size) none else e.vals
+  let vals := if e.vals.size < c.bindNum then growVals e.vals c.bindNum else e.vals
   { e with vals := vals, valsCap := cap }
 
 /-- Interp.prepareEnv(16, 1024); `none` = "internal error: attempt to reallocate Env.Ints[] after
@@ -298,8 +316,7 @@ def prepareEnv (c : Comp) (e : Env) : Comp × Env × Bool :=
     if e.taken then (c, e, false)
     else
       let cap := growCap e.ints.size c.intBindNum 1024
-      -- make([]uint64, min, capacity); copy(binds, env.Ints): the words beyond len are zero
-      let ints := growArr (e.ints.extract 0 e.intsLen) cap
+      let ints := growInts e.ints e.intsLen cap
       let e := { e with ints := ints, intsLen := c.intBindNum, gen := e.gen + 1 }
       (c, e, true)
   else
@@ -322,19 +339,24 @@ inductive Acc (α : Type) where
 
 def loadSlot (e : Env) (i : Nat) (k : K) : Acc SV :=
   if i + k.slots ≤ e.intsLen ∧ i + k.slots ≤ e.ints.size then
-    if k = .c128 then .ok (.n2 (e.ints.getD i 0) (e.ints.getD (i + 1) 0))
+    if k = .c128 then .ok (.n2 (e.ints.getD i 0 % k.modulus) (e.ints.getD (i + 1) 0 % k.modulus))
     else .ok (.n (e.ints.getD i 0 % k.modulus))
   else .panic
 
+/-- typed store into the low part of a word: the other bytes of the word are kept -/
 def putWord (a : Array Nat) (i : Nat) (m v : Nat) : Array Nat :=
   a.setIfInBounds i (a.getD i 0 - a.getD i 0 % m + v % m)
 
 def storeSlot (e : Env) (i : Nat) (k : K) (v : SV) : Acc Env :=
   if i + k.slots ≤ e.intsLen ∧ i + k.slots ≤ e.ints.size then
-    match v with
-    | .n2 a b => .ok { e with ints := (putWord (putWord e.ints i k.modulus a) (i + 1) k.modulus b) }
-    | .n a => .ok { e with ints := putWord e.ints i k.modulus a }
-    | .s _ => .panic
+    if k = .c128 then
+      match canon k v with
+      | .n2 a b => .ok { e with ints := (putWord (putWord e.ints i k.modulus a) (i + 1) k.modulus b) }
+      | _ => .panic
+    else
+      match canon k v with
+      | .n a => .ok { e with ints := putWord e.ints i k.modulus a }
+      | _ => .panic
   else .panic
 
 def load (e : Env) (l : Loc) (k : K) : Acc SV :=
@@ -347,15 +369,15 @@ def load (e : Env) (l : Loc) (k : K) : Acc SV :=
 def store (e : Env) (l : Loc) (k : K) (v : SV) : Acc Env :=
   match l with
   | .slot g i => if g = e.gen then storeSlot e i k v else .stale
-  | .box id => if id < e.boxes.size then .ok { e with boxes := e.boxes.setIfInBounds id v } else .panic
+  | .box id => if id < e.boxes.size then .ok { e with boxes := e.boxes.setIfInBounds id (canon k v) } else .panic
 
 /-- where the accessors compiled for a bind find the variable -/
 def locOf (e : Env) (b : Bind) : Option Loc :=
   match b.cls with
   | .intb => some (.slot e.gen b.idx)
-  | .varb => match e.vals[b.idx]? with
-    | some (some id) => some (.box id)
-    | _ => none
+  | .varb => match e.vals.getD b.idx none with
+    | some id => some (.box id)
+    | none => none
 
 /-- `xr.New(t).Elem()` stored into env.Vals[idx] -/
 def newBox (e : Env) (idx : Nat) (v : SV) : Acc Env :=
@@ -390,7 +412,7 @@ inductive Out where
   | panic    -- run-time panic
   | stale
   | stat (bindNum intBindNum intBindMax capInts lenInts capVals lenVals : Nat)
-  deriving Repr, Inhabited
+  deriving DecidableEq, Repr, Inhabited
 
 /-- pointer variables live in the name space `p<n>`; in `binds` they are keyed `2n+1`, variables `2n` -/
 def vkey (n : Nat) : Nat := 2 * n
@@ -457,106 +479,110 @@ def runAssign (s : St) (l : Loc) (k : K) (o : Op) (r : Rhs) : St × Out :=
           | .panic => (s, .panic)
           | .stale => (s, .stale)
 
+/-- `Interp.updateIntBindMax` at the start of a compile -/
+def pre (cfg : Cfg) (s : St) : St := { s with c := updateIntBindMax cfg s.c s.e }
+
+/-- `Interp.PrepareEnv` between compile and run -/
+def prep (s : St) : St × Bool :=
+  let r := prepareEnv s.c s.e
+  ({ s with c := r.1, e := r.2.1 }, r.2.2)
+
+/-- value stored by `var v K [= init]` -/
+def declVal (k : K) (init : Option SV) : SV := canon k (init.getD (zeroOf k))
+
+/-- run phase of `var v K = init` -/
+def runDecl (s : St) (b : Bind) (k : K) (init : Option SV) : St × Out :=
+  match b.cls with
+  | .intb =>
+    match storeSlot s.e b.idx k (declVal k init) with
+    | .ok e => ({ s with e := e }, .ok)
+    | _ => (s, .panic)
+  | .varb =>
+    match newBox s.e b.idx (declVal k init) with
+    | .ok e => ({ s with e := e }, .ok)
+    | _ => (s, .panic)
+
+/-- evaluating `&v` on an IntBind variable sets env.IntAddressTaken -/
+def takeAddr (e : Env) (tb : Bind) : Env := if tb.cls = .intb then { e with taken := true } else e
+
+/-- run phase of `p := &v`: evaluate &v (tb = bind of v), then declare p (b = bind of p) -/
+def runAddr (s : St) (tb b : Bind) (p : Nat) (k : K) : St × Out :=
+  match locOf (takeAddr s.e tb) tb with
+  | none => ({ s with e := takeAddr s.e tb }, .panic)
+  | some l =>
+    match newBox (takeAddr s.e tb) b.idx (.s "") with
+    | .ok e4 => ({ s with e := e4, ptab := (p, (l, k, tb.vid)) :: s.ptab }, .ok)
+    | _ => ({ s with e := takeAddr s.e tb }, .panic)
+
+def runRead (s : St) (l : Loc) (k : K) : St × Out :=
+  match load s.e l k with
+  | .ok v => (s, .val v)
+  | .panic => (s, .panic)
+  | .stale => (s, .stale)
+
 /-- compile; prepareEnv; run — one `Interp.Eval` -/
 def step (cfg : Cfg) (s : St) (a : Action) : St × Out :=
   match a with
   | .box => ({ s with c := { s.c with intBindMax := s.c.intBindNum } }, .ok)
   | .stat =>
-    let (c, e, good) := prepareEnv s.c s.e
-    ({ s with c := c, e := e },
-      if good then .stat c.bindNum c.intBindNum c.intBindMax e.ints.size e.intsLen e.valsCap e.vals.size else .ierr)
+    let r := prep s
+    (r.1, if r.2 then .stat r.1.c.bindNum r.1.c.intBindNum r.1.c.intBindMax r.1.e.ints.size r.1.e.intsLen
+                        r.1.e.valsCap r.1.e.vals.size else .ierr)
   | .decl name k init =>
-    let c0 := updateIntBindMax cfg s.c s.e
-    let (c1, b) := newBind cfg c0 (vkey name) (.sc k) s.nvid
-    let s1 := { s with c := c1, nvid := s.nvid + 1 }
-    let (c2, e2, good) := prepareEnv s1.c s1.e
-    let s2 := { s1 with c := c2, e := e2 }
-    if !good then (s2, .ierr) else
-    let v := init.getD (zeroOf k)
-    match b.cls with
-    | .intb =>
-      match storeSlot s2.e b.idx k v with
-      | .ok e => ({ s2 with e := e }, .ok)
-      | _ => (s2, .panic)
-    | .varb =>
-      match newBox s2.e b.idx v with
-      | .ok e => ({ s2 with e := e }, .ok)
-      | _ => (s2, .panic)
+    let s0 := pre cfg s
+    let nb := newBind cfg s0.c (vkey name) (.sc k) s0.nvid
+    let s1 := { s0 with c := nb.1, nvid := s0.nvid + 1 }
+    let r := prep s1
+    if !r.2 then (r.1, .ierr) else runDecl r.1 nb.2 k init
   | .addr p name =>
-    let c0 := updateIntBindMax cfg s.c s.e
-    let s0 := { s with c := c0 }
+    let s0 := pre cfg s
     match scalarBind s0.c name with
     | none => (s0, .cerr)
     | some (tb, k) =>
-      let (c1, b) := newBind cfg c0 (pkey p) (.ptr k) s.nvid
-      let s1 := { s0 with c := c1, nvid := s.nvid + 1 }
-      let (c2, e2, good) := prepareEnv s1.c s1.e
-      let s2 := { s1 with c := c2, e := e2 }
-      if !good then (s2, .ierr) else
-      -- run: evaluate &v, then declare p
-      let e3 := if tb.cls = .intb then { s2.e with taken := true } else s2.e
-      match locOf e3 tb with
-      | none => ({ s2 with e := e3 }, .panic)
-      | some l =>
-        match newBox e3 b.idx (.s "") with
-        | .ok e4 => ({ s2 with e := e4, ptab := (p, (l, k, tb.vid)) :: s2.ptab }, .ok)
-        | _ => ({ s2 with e := e3 }, .panic)
+      let nb := newBind cfg s0.c (pkey p) (.ptr k) s0.nvid
+      let s1 := { s0 with c := nb.1, nvid := s0.nvid + 1 }
+      let r := prep s1
+      if !r.2 then (r.1, .ierr) else runAddr r.1 tb nb.2 p k
   | .asg name o r =>
-    let c0 := updateIntBindMax cfg s.c s.e
-    let s0 := { s with c := c0 }
+    let s0 := pre cfg s
     match scalarBind s0.c name with
     | none => (s0, .cerr)
     | some (b, k) =>
       if !rhsOk s0 k r || constDivZero k o r then (s0, .cerr) else
-      let (c2, e2, good) := prepareEnv s0.c s0.e
-      let s2 := { s0 with c := c2, e := e2 }
-      if !good then (s2, .ierr) else
+      let pr := prep s0
+      if !pr.2 then (pr.1, .ierr) else
       let viaInts : Bool := match r with
         | .c cv => !cfg.quoGuard && usesQuoPow2 k o cv
         | _ => false
-      let l? : Option Loc := if viaInts then some (.slot s2.e.gen b.idx) else locOf s2.e b
+      let l? : Option Loc := if viaInts then some (.slot pr.1.e.gen b.idx) else locOf pr.1.e b
       match l? with
-      | none => (s2, .panic)
-      | some l => runAssign s2 l k o r
+      | none => (pr.1, .panic)
+      | some l => runAssign pr.1 l k o r
   | .wrp p o r =>
-    let c0 := updateIntBindMax cfg s.c s.e
-    let s0 := { s with c := c0 }
+    let s0 := pre cfg s
     match ptrOf s0 p with
     | none => (s0, .cerr)
     | some (l, k, _) =>
       if !rhsOk s0 k r || constDivZero k o r then (s0, .cerr) else
-      let (c2, e2, good) := prepareEnv s0.c s0.e
-      let s2 := { s0 with c := c2, e := e2 }
-      if !good then (s2, .ierr) else
-      runAssign s2 l k o r
+      let pr := prep s0
+      if !pr.2 then (pr.1, .ierr) else runAssign pr.1 l k o r
   | .read name =>
-    let c0 := updateIntBindMax cfg s.c s.e
-    let s0 := { s with c := c0 }
+    let s0 := pre cfg s
     match scalarBind s0.c name with
     | none => (s0, .cerr)
     | some (b, k) =>
-      let (c2, e2, good) := prepareEnv s0.c s0.e
-      let s2 := { s0 with c := c2, e := e2 }
-      if !good then (s2, .ierr) else
-      match locOf s2.e b with
-      | none => (s2, .panic)
-      | some l => match load s2.e l k with
-        | .ok v => (s2, .val v)
-        | .panic => (s2, .panic)
-        | .stale => (s2, .stale)
+      let pr := prep s0
+      if !pr.2 then (pr.1, .ierr) else
+      match locOf pr.1.e b with
+      | none => (pr.1, .panic)
+      | some l => runRead pr.1 l k
   | .rdp p =>
-    let c0 := updateIntBindMax cfg s.c s.e
-    let s0 := { s with c := c0 }
+    let s0 := pre cfg s
     match ptrOf s0 p with
     | none => (s0, .cerr)
     | some (l, k, _) =>
-      let (c2, e2, good) := prepareEnv s0.c s0.e
-      let s2 := { s0 with c := c2, e := e2 }
-      if !good then (s2, .ierr) else
-      match load s2.e l k with
-      | .ok v => (s2, .val v)
-      | .panic => (s2, .panic)
-      | .stale => (s2, .stale)
+      let pr := prep s0
+      if !pr.2 then (pr.1, .ierr) else runRead pr.1 l k
 
 def run (cfg : Cfg) : St → List Action → St × List Out
   | s, [] => (s, [])
@@ -599,19 +625,19 @@ def Seq.assign (q : Seq) (id : Nat) (k : K) (o : Op) (r : Rhs) : Seq × Out :=
   match q.rhsVal r with
   | none => (q, .panic)
   | some y =>
-    if o = .set then ({ q with vars := (id, y) :: q.vars }, .ok) else
+    if o = .set then ({ q with vars := (id, canon k y) :: q.vars }, .ok) else
     match q.vars.lookup id with
     | none => (q, .panic)
     | some x => match evalOp k o x y with
       | none => (q, .panic)
-      | some z => ({ q with vars := (id, z) :: q.vars }, .ok)
+      | some z => ({ q with vars := (id, canon k z) :: q.vars }, .ok)
 
 def Seq.step (q : Seq) (a : Action) : Seq × Out :=
   match a with
   | .box => (q, .ok)
   | .stat => (q, .ok)
   | .decl name k init =>
-    ({ q with names := (name, (q.nvid, k)) :: q.names, vars := (q.nvid, init.getD (zeroOf k)) :: q.vars,
+    ({ q with names := (name, (q.nvid, k)) :: q.names, vars := (q.nvid, canon k (init.getD (zeroOf k))) :: q.vars,
               nvid := q.nvid + 1 }, .ok)
   | .addr p name =>
     match q.names.lookup name with
